@@ -494,6 +494,45 @@ def task_comm(version):
         if k in d1.pres and k in d2.pres:
             e = O.eq_cond(sess, d1.vals[k], d2.vals[k])
             O.must_not(sess, chk, m.AND(m.AND(ok, m.AND(p1, p2)), m.NOT(e.l)), "%s: value of %s independent of field order" % (label, k), mk_replay)
+    # every other attribute of the object that the loop body may have stored must agree as well
+    # (a parser that tracks anything besides the metric map while reading fields would make the
+    # result order-dependent without touching the map)
+    nattr = 0
+    sess.begin(mod)
+    for nm in sorted((set(o1.attrs) | set(o2.attrs)) - {"metrics"}):
+        v1, v2 = o1.attrs.get(nm, C.UNBOUND), o2.attrs.get(nm, C.UNBOUND)
+        if v1 is v2:
+            continue
+        nattr += 1
+        same = same_value_guard(sess, v1, v2)
+        O.must_not(sess, chk, m.AND(ok, m.NOT(same)), "%s: attribute %r after the two fields independent of their order" % (label, nm), mk_replay)
+    chk.extra["comm_attributes_compared_v%d" % version] = nattr
     chk.extra["comm_alphabet_v%d" % version] = len(alphabet)
     chk.absorb(sess)
     return chk.to_dict()
+
+
+def same_value_guard(sess, v1, v2):
+    """guard: both values unset, or both set and equal (concrete leaves compared by type and
+    value; anything else through the interpreter's ==)"""
+    m, vc = sess.m, sess.vc
+    outs = []
+    for g1, l1 in vc.alts(v1):
+        for g2, l2 in vc.alts(v2):
+            g = m.AND(g1, g2)
+            if g is m.FALSE:
+                continue
+            if l1 is C.UNBOUND or l2 is C.UNBOUND:
+                if l1 is l2:
+                    outs.append(g)
+                continue
+            if C.is_special(l1) or C.is_special(l2):
+                e = O.eq_cond(sess, l1, l2)
+                outs.append(m.AND(g, e.l))
+                continue
+            try:
+                if type(l1) is type(l2) and l1 == l2:
+                    outs.append(g)
+            except Exception:  # noqa: BLE001
+                pass
+    return m.or_all(outs) if outs else m.FALSE
